@@ -10,7 +10,7 @@ use crate::with_d;
 use num::{One, Signed, Zero};
 use std::time::Instant;
 
-pub const RULE: &str = "cases = graphs accepted by build_sampler, half arbitrary multigraphs (G-graph incl. non-spanning full graphs, several components) and half connected physical graphs (G-phys, L<=5); for each: J(empty)=1, the local recursion on the table's own values for every subset (exact rationals), J recomputed from the table's omegas alone by exact recursion and (E<=6, thorough 8) by the sum over all E! orderings, edge probabilities summing to 1 for every subset, cached_factor against own Gamma. non-trivial = E>=3 and (unequal weights or a massive edge or a non-spanning full graph); distinct = distinct graph encodings";
+pub const RULE: &str = "cases = graphs accepted by build_sampler, half arbitrary multigraphs (G-graph incl. non-spanning full graphs, several components) and half connected physical graphs (G-phys, L<=5); for each: J(empty)=1, the local recursion on the table's own values for every subset (exact rationals), J recomputed from the table's omegas alone by exact recursion and (E<=6, thorough 7) by the sum over all E! orderings, edge probabilities summing to 1 for every subset, cached_factor against own Gamma. non-trivial = E>=3 and (unequal weights or a massive edge or a non-spanning full graph); distinct = distinct graph encodings";
 
 pub fn gen_case(t: &mut Tape, tier: Tier) -> Option<G> {
     if t.bool() {
@@ -96,7 +96,7 @@ fn check_d<const D: usize>(g: &G, ctx: &mut Ctx) -> Result<(), Failure> {
             fail!("j-global", "subset {m:#b}: table J={} but the exact recursion on the table's omegas gives {} (rel {rel:e}) for {g:?}", jt[m], qf(&jx[m]));
         }
     }
-    let max_fact = if ctx.replay { 9 } else if std::env::var("VERIF_TIER_THOROUGH").is_ok() { 8 } else { 6 };
+    let max_fact = if ctx.replay { 9 } else if std::env::var("VERIF_TIER_THOROUGH").is_ok() { 7 } else { 6 };
     if ne <= max_fact {
         let jo = jfun::j_full_by_orderings(ne, &omega);
         let rel = qf(&((&jq[full] - &jo) / &jo).abs());
